@@ -119,6 +119,17 @@ def _r2_r3(ctx):
     for cls in ("RegisterOperand", "FlagOperand"):
         ctx.check(cls in seen, "R2", "scan has a %s branch" % cls, fd.where(loop), "no branch for %s destinations" % cls,
                   fd.qname, "%s branch" % cls)
+    # every written operand is scanned: no iteration of the producer's operand loop returns to its head without the scan
+    outer0 = [l for l in C.enclosing_loops(loop) if isinstance(l, ast.For)]
+    if outer0:
+        ol = outer0[0]
+        skip = cfg.reachable(ol, ol, avoid=[loop], within=ol)
+        skips = [x for x in ast.walk(ol) if isinstance(x, ast.Continue) and C.enclosing_loop(x) is ol]
+        ctx.check(not skip, "R2", "every written operand of the producer is scanned for readers", fd.where(skips[0]) if skips else fd.where(ol),
+                  "an iteration over the producer's written operands can skip the scan of the following instructions (guards: %s): "
+                  "readers of that operand get no edge - e.g. registers that agree in `name` but not in `prefix` (AArch64 q0 / x0) are "
+                  "different registers" % [[("" if p else "not ") + U(e) for e, p in C.facts_at(x, stop=ol)] for x in skips][:2],
+                  fd.qname, "every written operand scanned")
     # destinations scanned: destination + src_dst
     outer = [l for l in C.enclosing_loops(loop) if isinstance(l, ast.For)]
     roles = sorted(C.str_consts(outer[-1].iter)) if outer else []
@@ -415,9 +426,17 @@ def _r7(ctx):
             ok = (U(v.body) == "%s.latency" % prod and U(v.orelse) == "%s.latency_wo_load" % prod
                   and "%s.latency_wo_load is None" % prod in test_parts
                   and test_parts <= {"%s.latency_wo_load is None" % prod, "'mem_dep' in %s" % U(loop.target.elts[1])})
-        ctx.check(ok, "R7", "ordinary weight = producer's latency without its load stage (fallback: latency)", f.where(loop),
-                  "the register-dependency edge weight is not `latency_wo_load` (latency only when that is None): %s" % (
-                      U(base[0].value) if base else "no definition"), f.qname, "ordinary weight")
+        anydef = [a for a in ast.walk(loop) if isinstance(a, ast.Assign) and U(a.targets[0]) == wname]
+        orform = [a for a in anydef if isinstance(a.value, ast.BoolOp) and isinstance(a.value.op, ast.Or)
+                  and [U(v) for v in a.value.values] == ["%s.latency_wo_load" % prod, "%s.latency" % prod]]
+        if orform:
+            ctx.node_bad("R7", f, orform[0], "`%s` falls back to the full latency whenever latency_wo_load is falsy - that is also when it is 0 "
+                         "(a zero-latency register form composed with a load): the load stage, which already is a node of its own, is "
+                         "then counted a second time on every edge leaving the instruction" % U(orform[0]), instance="ordinary weight")
+        else:
+            ctx.judge(ok, bool(base) or not anydef, "R7", "ordinary weight = producer's latency without its load stage (fallback: latency)", f.where(loop),
+                      "the register-dependency edge weight is not `latency_wo_load` (latency only when that is None): %s" % (
+                          U(base[0].value) if base else "no definition"), f.qname, "ordinary weight")
         wb = [n for n in ast.walk(loop) if isinstance(n, ast.If) and "'p_indexed' in" in U(n.test)]
         okw = bool(wb) and any(pm.match("%s = self.model.get('p_index_latency', M_d)" % wname, s) for s in wb[0].body)
         ctx.check(okw, "R7", "write-back edges weigh the model's p_index_latency", f.where(loop),
